@@ -28,7 +28,7 @@ def check(repo: Repo, R) -> None:
     R.run(id_keyed_caches, repo, R)
     R.run(cache_ownership, repo, R)
     from . import c08
-    R.run(c08.check, repo, shared.Retag(R, lambda r: "C07.6-failed-visit-never-revisited" if r.startswith("C08.3") else None,
+    R.run(c08.check, repo, shared.Retag(R, lambda r: "C07.6-failed-visit-never-revisited" if r.startswith("C08.3") or r.startswith("C08.2") else None,
                                  "elaborating the same module again after a failed visit gives another result than the first call (the half-rewritten module passes)"))
     # the export entry point elaborates whatever it is given, on every call (elaboration itself is what decides
     # "already done", per module); it never looks at marks left by earlier calls to skip it
